@@ -780,7 +780,9 @@ impl Check for VaultCheck {
                     }
                 }
             }
-            st.state(&(kind, got, (m.supply > 0), (m.total_assets() > m.supply)));
+            // abstract state: op, outcome, who acts for whom, rate regime, allowances alive, fault script
+            let parties = match s { Step::Deposit { receiver, from, operator, .. } | Step::Mint { receiver, from, operator, .. } => (receiver == from, from == operator), Step::Withdraw { receiver, owner, operator, .. } | Step::Redeem { receiver, owner, operator, .. } => (receiver == owner, owner == operator), _ => (true, true) };
+            st.state(&(kind, got, parties, m.supply > 0, m.total_assets().cmp(&m.supply) as i8, cfg.offset.min(3), m.trap, m.s_allow.values().filter(|v| v.0 > 0 && v.1 >= m.now).count().min(2), (m.total_assets() + 1) % (m.supply.max(1)) == 0));
         }
         Ok(())
     }
